@@ -8,6 +8,7 @@ import (
 	"bytes"
 	"errors"
 	"fmt"
+	"github.com/lightningnetwork/lnd/lnwire"
 	"io"
 	"math"
 	"net"
@@ -108,6 +109,11 @@ type noiseSide struct {
 	sent    [][]byte              // plaintexts written, in order (frames)
 	frames  [][]byte              // ciphertext frames as they went on the wire (attacker arm bookkeeping)
 	readIdx int                   // how many of the peer's plaintexts this side has read
+	// kept: the slices ReadNextMessage returned for the last few messages,
+	// kept by reference the way a caller that queues messages keeps them;
+	// they must still hold what was sent after later reads and writes
+	kept    [][]byte
+	keptIdx []int
 	rot     int
 	pre     func(writing bool) func() // duplex arm: marks the role busy for the operation
 }
@@ -168,7 +174,32 @@ func noiseRun(r *simcore.Run) {
 		r.Logf("attacker flips bit %02x of byte %d in act %d", bit, pos, act)
 	}
 	expectOK := arm != "wrong-static-key" && tamperAct == 0
+	// Half of the runs do the handshake the way lnd's callers do: Dial on one
+	// side, Listener.doHandshake on the other, over a blocking pipe that
+	// hands every act over in pieces of drawn sizes (a TCP stream has no
+	// message boundaries). Drawn after the keys so that older tapes keep
+	// their meaning for everything before it.
+	connLevel := t.CfgDraw(2) == 1
+	if connLevel {
+		r.Count("probe_conn_level_handshake")
+		ci, cr, err := connHandshake(r, initStatic, respStatic, target, tamperAct)
+		r.Logf("conn-level handshake arm=%s -> err=%v", arm, err)
+		if expectOK && err != nil {
+			r.Fail("handshake-fails", "Dial towards the responder's real static key over an unmodified (fragmenting) byte stream failed: %v", err)
+		}
+		if !expectOK {
+			if err == nil {
+				r.Fail("handshake-accepts", "Dial/Listener handshake completed although arm=%s (wrong static key or altered act %d)", arm, tamperAct)
+			}
+			r.Nontrivial = true
+			return
+		}
+		mi, mr = ci.noise, cr.noise
+	}
 	hsErr := func() error {
+		if connLevel {
+			return nil
+		}
 		a1, err := mi.GenActOne()
 		if err != nil {
 			return fmt.Errorf("GenActOne: %w", err)
@@ -554,6 +585,13 @@ func noiseReadOne(r *simcore.Run, s, peer *noiseSide) {
 			}
 		} else {
 			got, err = s.conn.ReadNextMessage()
+			if err == nil {
+				s.kept = append(s.kept, got)
+				s.keptIdx = append(s.keptIdx, s.readIdx)
+				if len(s.kept) > 4 {
+					s.kept, s.keptIdx = s.kept[1:], s.keptIdx[1:]
+				}
+			}
 		}
 		if err != nil {
 			r.Fail("read-error", "%s: reading an untampered message failed: %v", s.name, err)
@@ -562,6 +600,193 @@ func noiseReadOne(r *simcore.Run, s, peer *noiseSide) {
 			r.Fail("altered-data", "%s: read %d bytes that differ from message #%d the peer wrote (%d bytes)", s.name, len(got), s.readIdx, len(want))
 		}
 		s.readIdx++
+		noiseCheckKept(r, s, peer)
+	}
+}
+
+// ---- connection-level handshake ------------------------------------------
+
+// hsWire is one direction of a blocking in-memory byte stream.
+type hsWire struct {
+	mu     *sync.Mutex
+	cond   *sync.Cond
+	buf    []byte
+	closed bool
+	// pieces: sizes in which the reader is handed the stream (round robin);
+	// drawn before the two goroutines start
+	pieces []int
+	next   int
+	// attacker: flip flipBit of the byte at stream offset flipAt (-1: none)
+	flipAt  int
+	flipBit byte
+	written int
+	frags   int
+}
+
+type hsEnd struct {
+	in, out *hsWire
+}
+
+func (e *hsEnd) Write(p []byte) (int, error) {
+	w := e.out
+	w.mu.Lock()
+	defer w.mu.Unlock()
+	if w.closed {
+		return 0, io.ErrClosedPipe
+	}
+	q := append([]byte(nil), p...)
+	if w.flipAt >= w.written && w.flipAt < w.written+len(q) {
+		q[w.flipAt-w.written] ^= w.flipBit
+	}
+	w.written += len(q)
+	w.buf = append(w.buf, q...)
+	w.cond.Broadcast()
+	return len(p), nil
+}
+
+func (e *hsEnd) Read(p []byte) (int, error) {
+	w := e.in
+	w.mu.Lock()
+	defer w.mu.Unlock()
+	for len(w.buf) == 0 {
+		if w.closed {
+			return 0, io.EOF
+		}
+		w.cond.Wait()
+	}
+	n := len(p)
+	if n > len(w.buf) {
+		n = len(w.buf)
+	}
+	if len(w.pieces) > 0 {
+		k := w.pieces[w.next%len(w.pieces)]
+		w.next++
+		if k < n {
+			n = k
+			w.frags++
+		}
+	}
+	copy(p, w.buf[:n])
+	w.buf = w.buf[n:]
+	return n, nil
+}
+
+func (e *hsEnd) Close() error {
+	for _, w := range []*hsWire{e.in, e.out} {
+		w.mu.Lock()
+		w.closed = true
+		w.cond.Broadcast()
+		w.mu.Unlock()
+	}
+	return nil
+}
+func (e *hsEnd) LocalAddr() net.Addr                { return &net.TCPAddr{} }
+func (e *hsEnd) RemoteAddr() net.Addr               { return &net.TCPAddr{} }
+func (e *hsEnd) SetDeadline(t time.Time) error      { return nil }
+func (e *hsEnd) SetReadDeadline(t time.Time) error  { return nil }
+func (e *hsEnd) SetWriteDeadline(t time.Time) error { return nil }
+
+// connHandshake runs brontide.Dial against Listener.doHandshake. The two
+// calls block on each other, so they run on two goroutines; at any time only
+// one of them can make progress (the protocol alternates strictly), every
+// piece size and the attacker's bit are drawn beforehand, so the run replays.
+func connHandshake(r *simcore.Run, initStatic, respStatic *btcec.PrivateKey, target *btcec.PublicKey, tamperAct int) (*Conn, *Conn, error) {
+	var mu sync.Mutex
+	mkWire := func() *hsWire {
+		w := &hsWire{mu: &mu, flipAt: -1}
+		w.cond = sync.NewCond(&mu)
+		if r.Tape.CfgDraw(4) != 0 {
+			n := 1 + r.Tape.CfgDraw(6)
+			for i := 0; i < n; i++ {
+				w.pieces = append(w.pieces, 1+r.Tape.CfgDraw(70))
+			}
+		}
+		return w
+	}
+	wIR, wRI := mkWire(), mkWire()
+	if tamperAct != 0 {
+		r.Step()
+		r.Kind(fmt.Sprintf("tamper-act%d", tamperAct))
+		size := map[int]int{1: ActOneSize, 2: ActTwoSize, 3: ActThreeSize}[tamperAct]
+		pos := r.Draw(size)
+		bit := byte(1) << uint(r.Draw(8))
+		w, off := wIR, 0
+		switch tamperAct {
+		case 2:
+			w = wRI
+		case 3:
+			off = ActOneSize
+		}
+		w.flipAt, w.flipBit = off+pos, bit
+		r.Count("fault_handshake_tamper")
+		r.Logf("attacker flips bit %02x of byte %d in act %d (on the wire)", bit, pos, tamperAct)
+	}
+	endI, endR := &hsEnd{in: wRI, out: wIR}, &hsEnd{in: wIR, out: wRI}
+
+	l := &Listener{
+		localStatic:   &keychain.PrivKeyECDH{PrivKey: respStatic},
+		shouldAccept:  func(*btcec.PublicKey) (bool, error) { return true, nil },
+		handshakeSema: make(chan struct{}, 1),
+		conns:         make(chan maybeConn, 1),
+		quit:          make(chan struct{}),
+	}
+	go l.doHandshake(endR)
+
+	type dialRes struct {
+		c   *Conn
+		err error
+	}
+	dialed := make(chan dialRes, 1)
+	go func() {
+		c, err := Dial(&keychain.PrivKeyECDH{PrivKey: initStatic},
+			&lnwire.NetAddress{IdentityKey: target, Address: &net.TCPAddr{IP: net.IPv4(127, 0, 0, 1), Port: 9735}},
+			time.Minute, func(string, string, time.Duration) (net.Conn, error) { return endI, nil })
+		dialed <- dialRes{c, err}
+	}()
+	const patience = 2 * time.Minute // real time; only a hang ever gets there
+	var d dialRes
+	select {
+	case d = <-dialed:
+	case <-time.After(patience):
+		endI.Close()
+		r.Fail("handshake-hangs", "Dial did not return: both sides wait for bytes that never come")
+	}
+	if d.err != nil {
+		// the dialer gave up and closed; the listener side ends with an error
+		endI.Close()
+	}
+	var a maybeConn
+	select {
+	case a = <-l.conns:
+	case <-time.After(patience):
+		endI.Close()
+		r.Fail("handshake-hangs", "Listener.doHandshake did not finish")
+	}
+	if wIR.frags+wRI.frags > 0 {
+		r.Count("fault_handshake_act_delivered_in_pieces")
+	}
+	if d.err != nil {
+		return nil, nil, fmt.Errorf("Dial: %w", d.err)
+	}
+	if a.err != nil {
+		return nil, nil, fmt.Errorf("Listener: %w", a.err)
+	}
+	return d.c, a.conn, nil
+}
+
+// noiseCheckKept: a message that was read correctly stays what it was. The
+// slices handed out by earlier reads are compared again with what the peer
+// wrote (a buffer shared between reads would be overwritten by the next one).
+func noiseCheckKept(r *simcore.Run, s, peer *noiseSide) {
+	for i, b := range s.kept {
+		idx := s.keptIdx[i]
+		if idx < len(peer.sent) && !bytes.Equal(b, peer.sent[idx]) {
+			r.Fail("altered-after-read", "%s: message #%d (%d bytes) was read correctly, but the slice the read returned no longer holds what the peer wrote after %d later read(s): a later operation overwrote it",
+				s.name, idx, len(peer.sent[idx]), s.readIdx-1-idx)
+		}
+	}
+	if len(s.kept) > 1 {
+		r.Count("kept_message_checks")
 	}
 }
 
